@@ -21,7 +21,6 @@ package main
 
 import (
 	"bufio"
-	"context"
 	"fmt"
 	"os"
 	"os/exec"
@@ -1255,10 +1254,80 @@ func c12Worker() {
 	}
 }
 
+// c12RunWorker runs the programs in one fresh worker process. The worker writes one line per
+// finished run; it is killed when it produces NO line for `idle` (a run takes milliseconds, `idle`
+// is minutes: progress, not total time, is what is watched, so machine load cannot trigger it).
+// Returns the complete reply lines received and whether the worker stalled.
+func c12RunWorker(c *lib.Ctx, part []*c12Prog, idle time.Duration) (lines []string, stalled bool, err error) {
+	var in strings.Builder
+	for _, p := range part {
+		fmt.Fprintf(&in, "%s %d %s\n", p.key, p.reps, strings.Join(p.toks, " "))
+	}
+	cmd := exec.Command(os.Args[0], "C12", "--root", c.Root, "--repo", c.Repo)
+	cmd.Env = append(os.Environ(), "VERIF_C12_WORKER=1")
+	cmd.Stdin = strings.NewReader(in.String())
+	cmd.Stderr = os.Stderr
+	pipe, err := cmd.StdoutPipe()
+	if err != nil {
+		return nil, false, err
+	}
+	if err = cmd.Start(); err != nil {
+		return nil, false, err
+	}
+	got := make(chan string, 1024)
+	go func() {
+		sc := bufio.NewScanner(pipe)
+		sc.Buffer(make([]byte, 1<<20), 1<<26)
+		for sc.Scan() {
+			got <- sc.Text()
+		}
+		close(got)
+	}()
+	timer := time.NewTimer(idle)
+	defer timer.Stop()
+	for {
+		select {
+		case line, ok := <-got:
+			if !ok {
+				return lines, false, cmd.Wait()
+			}
+			lines = append(lines, line)
+			if !timer.Stop() {
+				select {
+				case <-timer.C:
+				default:
+				}
+			}
+			timer.Reset(idle)
+		case <-timer.C:
+			_ = cmd.Process.Kill()
+			for range got {
+			}
+			_ = cmd.Wait()
+			return lines, true, nil
+		}
+	}
+}
+
 // c12RunAll distributes the programs over worker processes (fresh process per chunk: classes are
-// global and never go away, so a process is retired after a few hundred programs);
-// result[key][rep] = words. A worker that does not finish its chunk in time is killed: the first
-// program it did not answer is recorded as hung (every word "!hang"), the rest is queued again.
+// global and never go away, so a process is retired after a few hundred runs);
+// result[key][rep] = words.
+//
+// Hangs (slip can dead-lock: a mutex left locked by a panic) must not stop the check, and the
+// verdict must not depend on the load of the machine: a worker is watched for PROGRESS (one line
+// per finished run); when it produces nothing for c12Idle, the first unanswered program is run
+// again ALONE in a fresh process under the same watch. Only a program that stalls then too is
+// recorded as hung (every word "!hang"); otherwise its results are used. The rest of the chunk is
+// queued again.
+// c12Idle: no finished run for this long = stalled (a run normally takes 5-50 ms).
+// VERIF_C12_IDLE_S overrides it (only meant for exercising the hang path quickly).
+var c12Idle = func() time.Duration {
+	if v, err := strconv.Atoi(os.Getenv("VERIF_C12_IDLE_S")); err == nil && v > 0 {
+		return time.Duration(v) * time.Second
+	}
+	return 3 * time.Minute
+}()
+
 func c12RunAll(c *lib.Ctx, progs []*c12Prog) map[string][][]string {
 	nw := runtime.NumCPU() / 2
 	if nw > 8 {
@@ -1267,20 +1336,40 @@ func c12RunAll(c *lib.Ctx, progs []*c12Prog) map[string][][]string {
 	if nw < 1 {
 		nw = 1
 	}
-	const chunk = 200
+	const maxRuns = 400
 	var queue [][]*c12Prog
-	for at := 0; at < len(progs); at += chunk {
-		end := at + chunk
-		if end > len(progs) {
-			end = len(progs)
+	var cur []*c12Prog
+	runs := 0
+	for _, p := range progs {
+		if runs+p.reps > maxRuns && len(cur) > 0 {
+			queue = append(queue, cur)
+			cur, runs = nil, 0
 		}
-		queue = append(queue, progs[at:end])
+		cur = append(cur, p)
+		runs += p.reps
+	}
+	if len(cur) > 0 {
+		queue = append(queue, cur)
 	}
 	res := map[string][][]string{}
 	var mu sync.Mutex
 	var wg sync.WaitGroup
 	failed := false
 	busy := 0
+	hangsConfirmed, slowChunks := 0, 0
+	store := func(lines []string) {
+		for _, line := range lines {
+			f := strings.Fields(line)
+			if len(f) < 2 {
+				continue
+			}
+			rep, _ := strconv.Atoi(f[1])
+			for len(res[f[0]]) <= rep {
+				res[f[0]] = append(res[f[0]], nil)
+			}
+			res[f[0]][rep] = f[2:]
+		}
+	}
 	complete := func(p *c12Prog) bool {
 		if len(res[p.key]) < p.reps {
 			return false
@@ -1311,64 +1400,61 @@ func c12RunAll(c *lib.Ctx, progs []*c12Prog) map[string][][]string {
 				queue = queue[1:]
 				busy++
 				mu.Unlock()
-				var in strings.Builder
-				for _, p := range part {
-					fmt.Fprintf(&in, "%s %d %s\n", p.key, p.reps, strings.Join(p.toks, " "))
-				}
-				ctx, cancel := context.WithTimeout(context.Background(), 120*time.Second)
-				cmd := exec.CommandContext(ctx, os.Args[0], "C12", "--root", c.Root, "--repo", c.Repo)
-				cmd.Env = append(os.Environ(), "VERIF_C12_WORKER=1")
-				cmd.Stdin = strings.NewReader(in.String())
-				cmd.Stderr = os.Stderr
-				out, err := cmd.Output()
-				timedOut := ctx.Err() != nil
-				cancel()
+				lines, timedOut, err := c12RunWorker(c, part, c12Idle)
 				mu.Lock()
-				busy--
-				if err != nil && !timedOut {
+				if err != nil {
 					fmt.Fprintf(os.Stderr, "C12 worker failed: %v\n", err)
 					failed = true
+					busy--
 					mu.Unlock()
 					return
 				}
-				lines := strings.Split(string(out), "\n")
-				if timedOut && len(lines) > 0 {
-					lines = lines[:len(lines)-1] // possibly cut
-				}
-				for _, line := range lines {
-					f := strings.Fields(line)
-					if len(f) < 2 {
-						continue
-					}
-					rep, _ := strconv.Atoi(f[1])
-					for len(res[f[0]]) <= rep {
-						res[f[0]] = append(res[f[0]], nil)
-					}
-					res[f[0]][rep] = f[2:]
-				}
+				store(lines)
+				var suspect *c12Prog
 				if timedOut {
+					slowChunks++
 					for i, p := range part {
 						if complete(p) {
 							continue
 						}
-						hang := make([]string, len(p.toks))
-						for j := range hang {
-							hang[j] = "!hang"
-						}
-						for len(res[p.key]) < p.reps {
-							res[p.key] = append(res[p.key], nil)
-						}
-						for rep := range res[p.key] {
-							if res[p.key][rep] == nil {
-								res[p.key][rep] = hang
-							}
-						}
+						suspect = p
+						delete(res, p.key)
 						if i+1 < len(part) {
 							queue = append(queue, part[i+1:])
 						}
 						break
 					}
 				}
+				mu.Unlock()
+				if suspect != nil {
+					// confirmation: the program alone, fresh process
+					lines, timedOut, err := c12RunWorker(c, []*c12Prog{suspect}, c12Idle)
+					mu.Lock()
+					if err != nil {
+						fmt.Fprintf(os.Stderr, "C12 worker failed: %v\n", err)
+						failed = true
+					} else {
+						store(lines)
+						if timedOut || !complete(suspect) {
+							hangsConfirmed++
+							hang := make([]string, len(suspect.toks))
+							for j := range hang {
+								hang[j] = "!hang"
+							}
+							for len(res[suspect.key]) < suspect.reps {
+								res[suspect.key] = append(res[suspect.key], nil)
+							}
+							for rep := range res[suspect.key] {
+								if res[suspect.key][rep] == nil {
+									res[suspect.key][rep] = hang
+								}
+							}
+						}
+					}
+					mu.Unlock()
+				}
+				mu.Lock()
+				busy--
 				mu.Unlock()
 			}
 		}()
@@ -1377,6 +1463,8 @@ func c12RunAll(c *lib.Ctx, progs []*c12Prog) map[string][][]string {
 	if failed {
 		os.Exit(2)
 	}
+	c.Ev.Coverage["worker_chunks_over_deadline"] = slowChunks
+	c.Ev.Coverage["hangs_confirmed_alone"] = hangsConfirmed
 	return res
 }
 
@@ -1636,6 +1724,12 @@ func c12Replay(c *lib.Ctx) {
 	}
 	p := &c12Prog{key: "rp", toks: toks, reps: reps, redefAt: -1, shape: "replay"}
 	model := strings.Fields(c.Model([]string{p.request()})[0])[1:]
+	// first in a watched worker process: the recorded case may dead-lock the implementation
+	if _, stalled, err := c12RunWorker(c, []*c12Prog{{key: "rpw", toks: toks, reps: reps}}, c12Idle); err == nil && stalled {
+		fmt.Printf("replay: the implementation made no progress for %v on this program (dead-lock)\n  %s\n", c12Idle, strings.Join(toks, " "))
+		c.Report("aspect=replay", false, map[string]any{"request": req, "observed": "!hang", "expected": strings.Join(model, " ")})
+		return
+	}
 	shown := false
 	for rep := 0; rep < reps; rep++ {
 		words, trace := c12RunImpl(fmt.Sprintf("rpr%d", rep), toks, true)
